@@ -1,0 +1,11 @@
+//go:build verif
+
+package packets
+
+import "golang.org/x/net/bpf"
+
+// VerifClassicBPFFilter exposes the classic BPF program selected for a filter spec
+// (verification builds only).
+func VerifClassicBPFFilter(spec PacketFilterSpec) ([]bpf.RawInstruction, error) {
+	return getClassicBPFFilter(spec)
+}
